@@ -18,6 +18,10 @@
   * `ghUpdate_computes`: `inp.length < 2 ^ 63` (`l - r` in int64, then `in[l-r:]`);
   * `firstCounter_computes`: `nonce.length < 2 ^ 61` (through gHashFinish: `plainLen << 3`);
   * `fillSingleBlock_computes`: `dst.length < 2 ^ 63` (the `copy` count).
+
+  The regenerated IR bounds-checks every pointer argument `&a[0]` of a routine (one `.assign _ [] (.idxc a 0)` per pointer,
+  before the frame record): `evalV_chk`; the round keys are non-empty by `LeafOk.rk_ne` (hence `specSem_leafSpec` takes
+  `rkw ≠ []`), `LeafOk.gh` is used with `count ≥ 1` only (`l ≥ 16` in the guarded branch of gHashUpdate, 1 elsewhere).
 -/
 import SMGo.Proofs.CTIRRefineGCMLeaf
 open SMGo SMGo.Model.CTIR SMGo.Proofs.CTIRRefineUtils
@@ -167,6 +171,14 @@ theorem store_byte {env : Env} {x y i s : Nat} {ie : Expr} {b : Bytes} {v : Nat}
     rw [if_neg (by omega), Int.toNat_natCast]
   · rw [hx]; exact bytesV_set b i _ hlt
 
+/-- the bounds check `&a[0]` of a pointer argument: the first byte is read -/
+theorem evalV_chk {env : Env} {a : Expr} {b : Bytes} (ha : evalV G env a = some (bytesV b)) (h : 0 < b.length) :
+    evalV G env (.idxc a 0) = some (.int (Int.ofNat (b.headD 0).toNat)) := by
+  rw [evalV_idxc, ha]
+  cases b with
+  | nil => simp at h
+  | cons x xs => rfl
+
 theorem cmp_false {env : Env} {o : Op2} {a b : Expr} {x y : Int}
     (ha : evalV G env a = some (.int x)) (hb : evalV G env b = some (.int y)) (h : evalOp2 o x y = some 0) :
     evalV G env (.op2 o a b) = some (.int 0) := evalV_op2i ha hb h
@@ -292,9 +304,13 @@ theorem xorBytes_take_length (a b : Bytes) (N : Nat) (ha : N ≤ a.length) (hb :
     (xorBytes (a.take N) (b.take N)).length = N := by
   simp [xorBytes]; omega
 
-theorem specSem_leafSpec (rkw : List W32) :
+theorem specSem_leafSpec (rkw : List W32) (hrk : rkw ≠ []) :
     LeafSpec (specSem rkw) (Spec.SM4.cryptFast rkw) (wordsV rkw) where
   E_len := SMGo.Proofs.GCMGlue.length_cryptFast rkw
+  rk_ne := by
+    cases rkw with
+    | nil => exact absurd rfl hrk
+    | cons w ws => exact ⟨_, _, rfl⟩
   frame := fun args => rfl
   enc := by
     intro name n hmem dst src hd hs
@@ -320,7 +336,7 @@ theorem specSem_leafSpec (rkw : List W32) :
         simp only [specSem, argBytes, bytesV, List.getElem?_cons_succ, List.getElem?_cons_zero, toBytes_bytes]
         rw [key]
   gh := by
-    intro H tag data count hH ht hd
+    intro H tag data count _ hH ht hd
     have hl : (ghBlocks specGh H count tag data).length = 16 := by
       rw [SMGo.Proofs.GCMGlueA64.ghBlocks_spec H hH count tag data ht hd]
       exact SMGo.Proofs.GCM.natToBlock_length _
@@ -352,14 +368,25 @@ theorem hasSmall_PA : HasSmall PA := ⟨rfl, rfl, rfl, rfl, rfl, rfl, rfl, rfl, 
 section Glue
 variable {P : Prog} {G : Nat → Val} {O : Oracle} {E : Bytes → Bytes} {c rk : Val}
 
-def fuelEnc : Nat := 12
+def fuelEnc : Nat := 18
 
 theorem encrypt_computes (hP : HasSmall P) (hO : LeafOk O E rk) (hc : CipherOk c rk) (dst src : Bytes)
     (hd : 16 ≤ dst.length) (hs : 16 ≤ src.length) :
     Computes P G O 1 fuelEnc [c, bytesV dst, bytesV src] [bytesV (E (src.take 16) ++ dst.drop 16)] := by
   obtain ⟨r1, r2, rfl⟩ := hc
+  obtain ⟨w, ws, hrk⟩ := hO.rk_ne
   let e0 : Env := Env.ofList [.arr (.arr (rk :: r1) :: r2), bytesV dst, bytesV src]
-  let e1 := e0.set 1 (bytesV (E (src.take 16) ++ dst.drop 16))
+  let ea := e0.set 3 w
+  let eb := ea.set 3 (.int (Int.ofNat (dst.headD 0).toNat))
+  let ec := eb.set 3 (.int (Int.ofNat (src.headD 0).toNat))
+  let e1 := ec.set 1 (bytesV (E (src.take 16) ++ dst.drop 16))
+  have k1 : evalV G e0 (.idxc (.idxc (.idxc (.var 0) 0) 0) 0) = some w := by
+    have : evalV G e0 (.idxc (.idxc (.var 0) 0) 0) = some rk := by simp [evalV_idxc, e0, Env.ofList]
+    rw [evalV_idxc, this, hrk]; rfl
+  have k2 : evalV G ea (.idxc (.var 1) 0) = some (.int (Int.ofNat (dst.headD 0).toNat)) :=
+    evalV_chk (b := dst) rfl (by omega)
+  have k3 : evalV G eb (.idxc (.var 2) 0) = some (.int (Int.ofNat (src.headD 0).toNat)) :=
+    evalV_chk (b := src) rfl (by omega)
   have c1 : evalV G e0 (.op2 .lt (.len (.var 2)) (.lit 16)) = some (.int 0) := by
     refine cmp_false (evalV_lenB (x := src) rfl) rfl ?_
     have : decide ((src.length : Int) < 16) = false := decide_eq_false (by omega)
@@ -368,17 +395,18 @@ theorem encrypt_computes (hP : HasSmall P) (hO : LeafOk O E rk) (hc : CipherOk c
     refine cmp_false (evalV_lenB (x := dst) rfl) rfl ?_
     have : decide ((dst.length : Int) < 16) = false := decide_eq_false (by omega)
     simp only [evalOp2, ofBool, this]; rfl
-  have c3 : EvIn P G O 1 e0 (.ext [] 0 true [(.lit 1)]) e0 .norm := ext0 hO (vs := [.int 1]) rfl
-  have c4 : EvIn P G O 1 e0 (.ext [1] 1 false [(.idxc (.idxc (.var 0) 0) 0), (.var 1), (.var 2)]) e1 .norm := by
+  have c3 : EvIn P G O 1 ec (.ext [] 0 true [(.lit 1)]) ec .norm := ext0 hO (vs := [.int 1]) rfl
+  have c4 : EvIn P G O 1 ec (.ext [1] 1 false [(.idxc (.idxc (.var 0) 0) 0), (.var 1), (.var 2)]) e1 .norm := by
     refine ext1 (vs := [rk, bytesV dst, bytesV src]) ?_ ?_
-    · simp [evalVs_cons, evalV_idxc, e0, Env.ofList]
+    · simp [evalVs_cons, evalV_idxc, ec, eb, ea, e0, Env.set, Env.ofList]
     · have := hO.enc 1 1 (by simp [encLeaves]) dst src (by omega) (by omega)
       simpa [blocksE] using this
   have sr : evalVs G e1 [(.var 1)] = some [bytesV (E (src.take 16) ++ dst.drop 16)] := by
     simp [evalVs_cons, e1, Env.set]
   refine Computes.of_body hP.h1 rfl rfl (env' := e1) ?_
   exact (EvIn.seq (EvIn.ite c1 rfl (EvIn.skip _)) (EvIn.seq (EvIn.ite c2 rfl (EvIn.skip _))
-    (EvIn.seq c3 (EvIn.seq c4 (EvIn.ret sr))))).mono (by decide)
+    (EvIn.seq (EvIn.assign k1) (EvIn.seq (EvIn.assign k2) (EvIn.seq (EvIn.assign k3)
+    (EvIn.seq c3 (EvIn.seq c4 (EvIn.ret sr)))))))).mono (by decide)
 
 end Glue
 
@@ -487,7 +515,7 @@ theorem be_stores (v w : Nat) :
   rw [e, e]
   rfl
 
-def fuelGhf : Nat := 60
+def fuelGhf : Nat := 70
 
 theorem ghFinish_computes (hP : HasSmall P) (hO : LeafOk O E rk) (H tag : Bytes) (a p : Nat) (hH : H.length = 16)
     (ht : tag.length = 16) (ha : a < 2 ^ 61) (hp : p < 2 ^ 61) :
@@ -576,14 +604,27 @@ theorem ghFinish_computes (hP : HasSmall P) (hO : LeafOk O E rk) (H tag : Bytes)
   have hb : b16 = be64 (8 * a) ++ be64 (8 * p) := be_stores v w
   have hbl : b16.length = 16 := by rw [hb]; simp [be64, Bytes.ofNatBE]
   let r := ghBlocks specGh H 1 tag b16
-  let e20 := e19.set 5 (bytesV r)
+  let ea := e19.set 8 (.int (Int.ofNat (H.headD 0).toNat))
+  let eb := ea.set 8 (.int (Int.ofNat (tag.headD 0).toNat))
+  let ec := eb.set 8 (.int (Int.ofNat (b16.headD 0).toNat))
+  let e20 := ec.set 5 (bytesV r)
   have g4 : e19 4 = bytesV H := by simp [e19, e18, e17, e16, e15, e14, e13, e12, e11, e10, e9, e8, e7, e6, e5, e4, e3, e2, e1, Env.set]; rfl
   have g5 : e19 5 = bytesV tag := by simp [e19, e18, e17, e16, e15, e14, e13, e12, e11, e10, e9, e8, e7, e6, e5, e4, e3, e2, e1, Env.set]; rfl
   have g9 : e19 9 = bytesV b16 := by simp [e19]
-  have f1 : EvIn P G O 1 e19 (.ext [] 0 true [(.lit 7), (.lit 1)]) e19 .norm := ext0 hO (vs := [.int 7, .int 1]) rfl
-  have f2 : EvIn P G O 1 e19 (.ext [5] 7 false [(.var 4), (.var 5), (.var 9), (.lit 1)]) e20 .norm := by
-    refine ext1 (vs := [bytesV H, bytesV tag, bytesV b16, .int ((1 : Nat) : Int)]) ?_ (hO.gh H tag b16 1 hH ht (by omega))
-    simp only [evalVs_cons, evalVs_nil, evalV_var, evalV_lit, g4, g5, g9]; rfl
+  have k1 : evalV G e19 (.idxc (.var 4) 0) = some (.int (Int.ofNat (H.headD 0).toNat)) :=
+    evalV_chk (b := H) (evar g4) (by omega)
+  have k2 : evalV G ea (.idxc (.var 5) 0) = some (.int (Int.ofNat (tag.headD 0).toNat)) :=
+    evalV_chk (b := tag) (evar (by simp [ea, Env.set, g5])) (by omega)
+  have k3 : evalV G eb (.idxc (.var 9) 0) = some (.int (Int.ofNat (b16.headD 0).toNat)) :=
+    evalV_chk (b := b16) (evar (by simp [eb, ea, Env.set, g9])) (by omega)
+  have g4' : ec 4 = bytesV H := by simp [ec, eb, ea, Env.set, g4]
+  have g5' : ec 5 = bytesV tag := by simp [ec, eb, ea, Env.set, g5]
+  have g9' : ec 9 = bytesV b16 := by simp [ec, eb, ea, Env.set, g9]
+  have f1 : EvIn P G O 1 ec (.ext [] 0 true [(.lit 7), (.lit 1)]) ec .norm := ext0 hO (vs := [.int 7, .int 1]) rfl
+  have f2 : EvIn P G O 1 ec (.ext [5] 7 false [(.var 4), (.var 5), (.var 9), (.lit 1)]) e20 .norm := by
+    refine ext1 (vs := [bytesV H, bytesV tag, bytesV b16, .int ((1 : Nat) : Int)]) ?_
+      (hO.gh H tag b16 1 (Nat.le_refl _) hH ht (by omega))
+    simp only [evalVs_cons, evalVs_nil, evalV_var, evalV_lit, g4', g5', g9']; rfl
   have hr : r = natToBlock (ghFold (blockToNat H) (blockToNat tag) (be64 (8 * a) ++ be64 (8 * p))) := by
     show ghBlocks specGh H 1 tag b16 = _
     rw [SMGo.Proofs.GCMGlueA64.ghBlocks_spec H hH 1 tag b16 ht (by omega), List.take_of_length_le (by omega), hb]
@@ -591,13 +632,13 @@ theorem ghFinish_computes (hP : HasSmall P) (hO : LeafOk O E rk) (H tag : Bytes)
     rw [← hr]; simp [evalVs_cons, e20, Env.set]
   refine Computes.of_body hP.h4 rfl rfl (env' := e20) ?_
   exact (EvIn.seq (EvIn.assign s1) (EvIn.seq (EvIn.assign s2)
-    (EvIn.seq t3 (EvIn.seq t4 (EvIn.seq t5 (EvIn.seq t6 (EvIn.seq t7 (EvIn.seq t8 (EvIn.seq t9 (EvIn.seq t10 (EvIn.seq (EvIn.assign s11) (EvIn.seq t12 (EvIn.seq t13 (EvIn.seq t14 (EvIn.seq t15 (EvIn.seq t16 (EvIn.seq t17 (EvIn.seq t18 (EvIn.seq t19 (EvIn.seq f1 (EvIn.seq f2 (EvIn.ret sr)))))))))))))))))))))).mono (by decide)
+    (EvIn.seq t3 (EvIn.seq t4 (EvIn.seq t5 (EvIn.seq t6 (EvIn.seq t7 (EvIn.seq t8 (EvIn.seq t9 (EvIn.seq t10 (EvIn.seq (EvIn.assign s11) (EvIn.seq t12 (EvIn.seq t13 (EvIn.seq t14 (EvIn.seq t15 (EvIn.seq t16 (EvIn.seq t17 (EvIn.seq t18 (EvIn.seq t19 (EvIn.seq (EvIn.assign k1) (EvIn.seq (EvIn.assign k2) (EvIn.seq (EvIn.assign k3) (EvIn.seq f1 (EvIn.seq f2 (EvIn.ret sr))))))))))))))))))))))))).mono (by decide)
 
 end Glue3
 section Glue4
 variable {P : Prog} {G : Nat → Val} {O : Oracle} {E : Bytes → Bytes} {c rk : Val} {ns ts : Nat}
 
-def fuelGhu : Nat := 30
+def fuelGhu : Nat := 40
 
 theorem ghUpdate_computes (hP : HasSmall P) (hO : LeafOk O E rk) (H tag inp : Bytes) (hH : H.length = 16)
     (ht : tag.length = 16) (hlen : inp.length < 2 ^ 63) :
@@ -613,56 +654,68 @@ theorem ghUpdate_computes (hP : HasSmall P) (hO : LeafOk O E rk) (H tag inp : By
   have ht1 : tag1.length = 16 := by rw [htag1]; exact SMGo.Proofs.GCM.natToBlock_length _
   let e0 : Env := Env.ofList [c, rk, .int (ns : Int), .int (ts : Int), bytesV H, bytesV tag, bytesV inp]
   let e1 := e0.set 8 (.int (l : Int))
-  let e2 := e1.set 5 (bytesV tag1)
-  let e3 := e2.set 9 (.int (r : Int))
   have s1 : evalV G e0 (.len (.var 6)) = some (.int (l : Int)) := evalV_lenB (x := inp) rfl
-  have shr : evalV G e1 (.op1 (.shrc 4) (.var 8)) = some (.int (q : Int)) := by
-    rw [evalV_op1, evalV_var]
+  have shr : ∀ env : Env, env 8 = .int (l : Int) → evalV G env (.op1 (.shrc 4) (.var 8)) = some (.int (q : Int)) := by
+    intro env h8
+    rw [evalV_op1, evalV_var, h8]
     show some (Val.int (((l >>> 4 : Nat) : Int))) = _
     rw [SMGo.Proofs.GCMGlueA64.shr4]
-  -- the whole blocks
-  have br : EvIn P G O 4 e1 (.ite (.op2 .ge (.var 8) (.lit 16))
-      (SMGo.Gen.CTIRProgSM4.Arm64.seqs [.ext [] 0 true [(.lit 7), (.op1 (.shrc 4) (.var 8))],
-        .ext [5] 7 false [(.var 4), (.var 5), (.var 6), (.op1 (.shrc 4) (.var 8))]]) .skip) e2 .norm := by
+  -- the whole blocks: both branches end with the same H, tag, in, l (the blank variable 7 differs)
+  have br : ∃ e2 : Env, EvIn P G O 12 e1 (.ite (.op2 .ge (.var 8) (.lit 16))
+      (SMGo.Gen.CTIRProgSM4.Arm64.seqs [.assign 7 [] (.idxc (.var 4) 0), .assign 7 [] (.idxc (.var 5) 0),
+        .assign 7 [] (.idxc (.var 6) 0), .ext [] 0 true [(.lit 7), (.op1 (.shrc 4) (.var 8))],
+        .ext [5] 7 false [(.var 4), (.var 5), (.var 6), (.op1 (.shrc 4) (.var 8))]]) .skip) e2 .norm
+      ∧ e2 4 = bytesV H ∧ e2 5 = bytesV tag1 ∧ e2 6 = bytesV inp ∧ e2 8 = .int (l : Int) := by
     by_cases hge : 16 ≤ l
     · have cc : evalV G e1 (.op2 .ge (.var 8) (.lit 16)) = some (.int 1) := by
         refine evalV_op2i (evar rfl) rfl ?_
         have : decide ((16 : Int) ≤ (l : Int)) = true := decide_eq_true (by omega)
         simp only [evalOp2, ofBool, this]; rfl
-      have f1 : EvIn P G O 1 e1 (.ext [] 0 true [(.lit 7), (.op1 (.shrc 4) (.var 8))]) e1 .norm := by
+      let ea := e1.set 7 (.int (Int.ofNat (H.headD 0).toNat))
+      let eb := ea.set 7 (.int (Int.ofNat (tag.headD 0).toNat))
+      let ec := eb.set 7 (.int (Int.ofNat (inp.headD 0).toNat))
+      have k1 : evalV G e1 (.idxc (.var 4) 0) = some (.int (Int.ofNat (H.headD 0).toNat)) :=
+        evalV_chk (b := H) rfl (by omega)
+      have k2 : evalV G ea (.idxc (.var 5) 0) = some (.int (Int.ofNat (tag.headD 0).toNat)) :=
+        evalV_chk (b := tag) rfl (by omega)
+      have k3 : evalV G eb (.idxc (.var 6) 0) = some (.int (Int.ofNat (inp.headD 0).toNat)) :=
+        evalV_chk (b := inp) rfl (by omega)
+      have hq1 : 1 ≤ q := by simp only [q]; omega
+      have f1 : EvIn P G O 1 ec (.ext [] 0 true [(.lit 7), (.op1 (.shrc 4) (.var 8))]) ec .norm := by
         refine ext0 hO (vs := [.int 7, .int (q : Int)]) ?_
-        rw [evalVs_cons, evalVs_cons, shr]; rfl
-      have f2 : EvIn P G O 1 e1 (.ext [5] 7 false [(.var 4), (.var 5), (.var 6), (.op1 (.shrc 4) (.var 8))]) e2 .norm := by
-        refine ext1 (vs := [bytesV H, bytesV tag, bytesV inp, .int (q : Int)]) ?_ (hO.gh H tag inp q hH ht hq)
-        rw [evalVs_cons, evalVs_cons, evalVs_cons, evalVs_cons, shr]; rfl
-      exact (EvIn.ite cc rfl (EvIn.seq f1 f2)).mono (by decide)
+        rw [evalVs_cons, evalVs_cons, shr ec rfl]; rfl
+      have f2 : EvIn P G O 1 ec (.ext [5] 7 false [(.var 4), (.var 5), (.var 6), (.op1 (.shrc 4) (.var 8))])
+          (ec.set 5 (bytesV tag1)) .norm := by
+        refine ext1 (vs := [bytesV H, bytesV tag, bytesV inp, .int (q : Int)]) ?_ (hO.gh H tag inp q hq1 hH ht hq)
+        rw [evalVs_cons, evalVs_cons, evalVs_cons, evalVs_cons, shr ec rfl]; rfl
+      exact ⟨ec.set 5 (bytesV tag1), (EvIn.ite cc rfl (EvIn.seq (EvIn.assign k1) (EvIn.seq (EvIn.assign k2)
+        (EvIn.seq (EvIn.assign k3) (EvIn.seq f1 f2))))).mono (by decide), rfl, rfl, rfl, rfl⟩
     · have cc : evalV G e1 (.op2 .ge (.var 8) (.lit 16)) = some (.int 0) := by
         refine cmp_false (evar rfl) rfl ?_
         have : decide ((16 : Int) ≤ (l : Int)) = false := decide_eq_false (by omega)
         simp only [evalOp2, ofBool, this]; rfl
       have hq0 : q = 0 := by simp only [q]; omega
-      have : tag1 = tag := by simp only [tag1, hq0, ghBlocks]
-      have he : e2 = e1 := by
-        show e1.set 5 (bytesV tag1) = e1
-        rw [this]; exact Env.set_self rfl
-      rw [he]
-      exact (EvIn.ite cc rfl (EvIn.skip _)).mono (by decide)
+      have h1 : tag1 = tag := by simp only [tag1, hq0, ghBlocks]
+      refine ⟨e1, (EvIn.ite cc rfl (EvIn.skip _)).mono (by decide), rfl, ?_, rfl, rfl⟩
+      rw [h1]; rfl
+  obtain ⟨e2, hbr, k4, k5, k6, k8⟩ := br
+  let e3 := e2.set 9 (.int (r : Int))
   have s3 : evalV G e2 (.op2 (.and .i64) (.var 8) (.lit 15)) = some (.int (r : Int)) :=
-    evalV_op2i (evar rfl) rfl (and15_i64 l)
-  have g4 : e3 4 = bytesV H := rfl
-  have g5 : e3 5 = bytesV tag1 := rfl
-  have g6 : e3 6 = bytesV inp := rfl
-  have g8 : e3 8 = .int (l : Int) := rfl
-  have g9 : e3 9 = .int (r : Int) := rfl
+    evalV_op2i (evar k8) rfl (and15_i64 l)
+  have g4 : e3 4 = bytesV H := (Env.set_other _ _ (by decide)).trans k4
+  have g5 : e3 5 = bytesV tag1 := (Env.set_other _ _ (by decide)).trans k5
+  have g6 : e3 6 = bytesV inp := (Env.set_other _ _ (by decide)).trans k6
+  have g8 : e3 8 = .int (l : Int) := (Env.set_other _ _ (by decide)).trans k8
+  have g9 : e3 9 = .int (r : Int) := Env.set_same _ _ _
   have hfold := SMGo.Proofs.GCMGlueA64.ghFold_pad16 (blockToNat H) (blockToNat tag) inp
   by_cases hr : r = 0
   · have cc : evalV G e3 (.op2 .ne (.var 9) (.lit 0)) = some (.int 0) := by
       refine cmp_false (evar g9) rfl ?_
       simp only [evalOp2, ofBool, hr]; rfl
     have sr : evalVs G e3 [(.var 5)] = some [bytesV (natToBlock (ghFold (blockToNat H) (blockToNat tag) (pad16 inp)))] := by
-      rw [hfold, if_pos hr, ← htag1]; rfl
+      rw [hfold, if_pos hr, ← htag1, evalVs_cons, evalV_var, g5]; rfl
     refine Computes.of_body hP.h3 rfl rfl (env' := e3) ?_
-    exact (EvIn.seq (EvIn.assign s1) (EvIn.seq br (EvIn.seq (EvIn.assign s3)
+    exact (EvIn.seq (EvIn.assign s1) (EvIn.seq hbr (EvIn.seq (EvIn.assign s3)
       (EvIn.seq (EvIn.ite cc rfl (EvIn.skip _)) (EvIn.ret sr))))).mono (by decide)
   · have hr16 : r < 16 := Nat.mod_lt _ (by decide)
     have cc : evalV G e3 (.op2 .ne (.var 9) (.lit 0)) = some (.int 1) := by
@@ -677,8 +730,11 @@ theorem ghUpdate_computes (hP : HasSmall P) (hO : LeafOk O E rk) (H tag inp : By
     let f3 := f2.set 12 (.int ((min z.length tl.length : Nat) : Int))
     let tmp := tl.take (min z.length tl.length) ++ z.drop (min z.length tl.length)
     let f4 := f3.set 10 (bytesV tmp)
+    let fa := f4.set 7 (.int (Int.ofNat (H.headD 0).toNat))
+    let fb := fa.set 7 (.int (Int.ofNat (tag1.headD 0).toNat))
+    let fc := fb.set 7 (.int (Int.ofNat (tmp.headD 0).toNat))
     let res := ghBlocks specGh H 1 tag1 tmp
-    let f5 := f4.set 5 (bytesV res)
+    let f5 := fc.set 5 (bytesV res)
     have hm : min z.length tl.length = r := by rw [htl]; simp [z]; omega
     have htmp : tmp = inp.drop (inp.length - inp.length % 16) ++ List.replicate (16 - inp.length % 16) 0 := by
       simp only [tmp, hm]
@@ -688,18 +744,33 @@ theorem ghUpdate_computes (hP : HasSmall P) (hO : LeafOk O E rk) (H tag inp : By
     have htmpl : tmp.length = 16 := by rw [htmp]; simp; omega
     have a1 : evalV G e3 (.mk (.lit 16) (.lit 0)) = some (bytesV z) := evalV_mk16 _
     have a2 : evalV G f1 (.slice (.var 6) (.op2 (.sub .i64) (.var 8) (.var 9)) (.len (.var 6))) = some (bytesV tl) := by
+      have h8 : f1 8 = .int (l : Int) := (Env.set_other _ _ (by decide)).trans g8
+      have h9 : f1 9 = .int (r : Int) := (Env.set_other _ _ (by decide)).trans g9
+      have h6 : f1 6 = bytesV inp := (Env.set_other _ _ (by decide)).trans g6
       have d : evalV G f1 (.op2 (.sub .i64) (.var 8) (.var 9)) = some (.int ((l - r : Nat) : Int)) := by
-        have := evalV_op2i (G := G) (env := f1) (o := .sub .i64) (a := .var 8) (b := .var 9) (evar g8) (evar g9)
+        have := evalV_op2i (G := G) (env := f1) (o := .sub .i64) (a := .var 8) (b := .var 9) (evar h8) (evar h9)
           (sub_i64 (by omega) (by omega))
         rw [this]; congr 2; simp only [r]; omega
-      exact evalV_sliceFrom (x := inp) (evar g6) d (by omega)
+      exact evalV_sliceFrom (x := inp) (evar h6) d (by omega)
     have a3 := copy_min (G := G) (env := f2) (d := 10) (s := 11) (dst := z) (src := tl) rfl rfl (by simp [z])
     have a4 := copy_cat (G := G) (env := f3) (d := 10) (s := 11) (t := 12) (dst := z) (src := tl)
       (m := min z.length tl.length) rfl rfl rfl (Nat.min_le_left _ _) (Nat.min_le_right _ _) (by simp [z])
-    have f1' : EvIn P G O 1 f4 (.ext [] 0 true [(.lit 7), (.lit 1)]) f4 .norm := ext0 hO (vs := [.int 7, .int 1]) rfl
-    have f2' : EvIn P G O 1 f4 (.ext [5] 7 false [(.var 4), (.var 5), (.var 10), (.lit 1)]) f5 .norm := by
-      refine ext1 (vs := [bytesV H, bytesV tag1, bytesV tmp, .int ((1 : Nat) : Int)]) ?_ (hO.gh H tag1 tmp 1 hH ht1 (by omega))
-      rfl
+    have m4 : f4 4 = bytesV H := by simp [f4, f3, f2, f1, Env.set, g4]
+    have m5 : f4 5 = bytesV tag1 := by simp [f4, f3, f2, f1, Env.set, g5]
+    have k1 : evalV G f4 (.idxc (.var 4) 0) = some (.int (Int.ofNat (H.headD 0).toNat)) :=
+      evalV_chk (b := H) (evar m4) (by omega)
+    have k2 : evalV G fa (.idxc (.var 5) 0) = some (.int (Int.ofNat (tag1.headD 0).toNat)) :=
+      evalV_chk (b := tag1) (evar (by simp [fa, Env.set, m5])) (by omega)
+    have k3 : evalV G fb (.idxc (.var 10) 0) = some (.int (Int.ofNat (tmp.headD 0).toNat)) :=
+      evalV_chk (b := tmp) rfl (by omega)
+    have n4 : fc 4 = bytesV H := by simp [fc, fb, fa, Env.set, m4]
+    have n5 : fc 5 = bytesV tag1 := by simp [fc, fb, fa, Env.set, m5]
+    have n10 : fc 10 = bytesV tmp := rfl
+    have f1' : EvIn P G O 1 fc (.ext [] 0 true [(.lit 7), (.lit 1)]) fc .norm := ext0 hO (vs := [.int 7, .int 1]) rfl
+    have f2' : EvIn P G O 1 fc (.ext [5] 7 false [(.var 4), (.var 5), (.var 10), (.lit 1)]) f5 .norm := by
+      refine ext1 (vs := [bytesV H, bytesV tag1, bytesV tmp, .int ((1 : Nat) : Int)]) ?_
+        (hO.gh H tag1 tmp 1 (Nat.le_refl _) hH ht1 (by omega))
+      simp only [evalVs_cons, evalVs_nil, evalV_var, evalV_lit, n4, n5, n10]; rfl
     have hres : res = natToBlock (ghFold (blockToNat H) (blockToNat tag) (pad16 inp)) := by
       show ghBlocks specGh H 1 tag1 tmp = _
       rw [SMGo.Proofs.GCMGlueA64.ghBlocks_spec H hH 1 tag1 tmp ht1 (by omega), List.take_of_length_le (by omega),
@@ -709,9 +780,10 @@ theorem ghUpdate_computes (hP : HasSmall P) (hO : LeafOk O E rk) (H tag inp : By
     have sr : evalVs G f5 [(.var 5)] = some [bytesV (natToBlock (ghFold (blockToNat H) (blockToNat tag) (pad16 inp)))] := by
       rw [← hres]; rfl
     refine Computes.of_body hP.h3 rfl rfl (env' := f5) ?_
-    exact (EvIn.seq (EvIn.assign s1) (EvIn.seq br (EvIn.seq (EvIn.assign s3)
+    exact (EvIn.seq (EvIn.assign s1) (EvIn.seq hbr (EvIn.seq (EvIn.assign s3)
       (EvIn.seq (EvIn.ite cc rfl (EvIn.seq (EvIn.assign a1) (EvIn.seq (EvIn.assign a2) (EvIn.seq (EvIn.assign a3)
-        (EvIn.seq (EvIn.assign a4) (EvIn.seq f1' f2')))))) (EvIn.ret sr))))).mono (by decide)
+        (EvIn.seq (EvIn.assign a4) (EvIn.seq (EvIn.assign k1) (EvIn.seq (EvIn.assign k2) (EvIn.seq (EvIn.assign k3)
+        (EvIn.seq f1' f2'))))))))) (EvIn.ret sr))))).mono (by decide)
 
 def fuelCfc : Nat := fuelGhu + fuelGhf + 10
 
